@@ -293,6 +293,18 @@ def reader_frame_table(ctx, slot: str, assume_present=("Lane", "EndTime")):
                             del st[nm]
             elif op.name in ("copy", "reset_index"):
                 pass
+            elif op.name == "fillna" and len(c.args) == 1 and not [k for k in c.keywords if k.arg not in ("value",)]:
+                # frame-level fill with one default per column: df.fillna({"a": 0, "b": 1}) is df.a = df.a.fillna(0); df.b = df.b.fillna(1)
+                d = FO.dict_arg(c, lambda x: M.lit(fn.mod, x))
+                if d is None:
+                    undec.append("fillna argument is not a literal map of column -> default")
+                else:
+                    for col_, dv in d.items():
+                        cs = get(col_, op.node, reading=False)
+                        if not cs.present:
+                            issues.append((op.node, f"'{col_}' is normalised before it is guaranteed to exist (absent from every object -> the fill does nothing)", col_))
+                        cs.filled = True
+                        cs.default = dv
             else:
                 undec.append(f"unmodelled frame method {op.name}")
         elif op.kind == "construct":
@@ -868,7 +880,7 @@ def rule_r7(ctx) -> List[R.Inst]:
                             f"'{t}' keeps the line terminators and read() joins the lines with another '\\n': every line break is "
                             f"doubled, which turns a folded (wrapped) YAML scalar into one with literal newlines",
                             construct=f"read_file: {t}"))
-    elif ".read()" in t or ".splitlines()" in t or "rstrip" in t or "strip(" in t:
+    elif ".read()" in t or ".read_text(" in t or ".splitlines()" in t or "rstrip" in t or "strip(" in t:
         insts.append(R.ok(rid, "read_file", file, src.lineno, idiom=f"{t}: text or terminator-free lines"))
     else:
         insts.append(R.undec(rid, "read_file", file, src.lineno, f"line source '{t}' not recognised"))
